@@ -70,6 +70,24 @@ type c07Case struct {
 	// WireTotal != 0: the verifying sets are taken through their wire form (ToProto / ValidatorSetFromProto, as a light block or
 	// evidence arriving from a peer is) with the sender's total_voting_power field set to this value
 	WireTotal int64 `json:"wire_total_voting_power,omitempty"`
+	// ChainPair selects the genuine / other chain id: 0 short ids; 1 two ids longer than MaxChainIDLen that share their first
+	// MaxChainIDLen bytes; 2 an id one byte longer than MaxChainIDLen and its MaxChainIDLen-byte prefix; 3 two ids of exactly
+	// MaxChainIDLen bytes that differ in the last byte
+	ChainPair int `json:"chain_pair,omitempty"`
+}
+
+// c07ChainOf returns the genuine (which 0) or the other (which 1) chain id of a pair.
+func c07ChainOf(pair, which int) string {
+	p50 := "verif-c07-a-chain-id-of-exactly-fifty-bytes-long-x"[:MaxChainIDLen]
+	switch pair {
+	case 1:
+		return p50 + []string{"-mainnet", "-testnet"}[which]
+	case 2:
+		return []string{p50 + "x", p50}[which]
+	case 3:
+		return p50[:MaxChainIDLen-1] + []string{"a", "b"}[which]
+	}
+	return []string{c07Chain, "verif-c07-other"}[which]
 }
 
 type c07Env struct {
@@ -160,7 +178,7 @@ func (e *c07Env) build(c c07Case) (*c07Built, error) {
 			next = NewValidator(e.outsider.PubKey(), 1)
 		}
 		cs := CommitSig{BlockIDFlag: BlockIDFlagCommit, ValidatorAddress: val.Address, Timestamp: e.ts}
-		tr := c07Signed{chain: c07Chain, height: c07Height, round: c07Round, typ: tmproto.PrecommitType, block: 0, signer: k.PubKey(), ok: true}
+		tr := c07Signed{chain: c07ChainOf(c.ChainPair, 0), height: c07Height, round: c07Round, typ: tmproto.PrecommitType, block: 0, signer: k.PubKey(), ok: true}
 		switch c.Kinds[i] {
 		case c07Absent:
 			cs = NewCommitSigAbsent()
@@ -180,7 +198,7 @@ func (e *c07Env) build(c c07Case) (*c07Built, error) {
 			cs.BlockIDFlag = BlockIDFlagNil
 			tr.ok = false
 		case c07OtherChain:
-			tr.chain = "verif-c07-other"
+			tr.chain = c07ChainOf(c.ChainPair, 1)
 		case c07OtherHeight:
 			tr.height++
 		case c07OtherRound:
@@ -220,8 +238,8 @@ func (e *c07Env) build(c c07Case) (*c07Built, error) {
 		b.truth = append(b.truth, c07Signed{})
 	case 2:
 		sigs = append(sigs, CommitSig{BlockIDFlag: BlockIDFlagCommit, ValidatorAddress: e.outsider.PubKey().Address(), Timestamp: e.ts,
-			Signature: e.sign(e.outsider, c07Chain, c07Height, c07Round, tmproto.PrecommitType, 0)})
-		b.truth = append(b.truth, c07Signed{chain: c07Chain, height: c07Height, round: c07Round, typ: tmproto.PrecommitType, block: 0, signer: e.outsider.PubKey(), ok: true})
+			Signature: e.sign(e.outsider, c07ChainOf(c.ChainPair, 0), c07Height, c07Round, tmproto.PrecommitType, 0)})
+		b.truth = append(b.truth, c07Signed{chain: c07ChainOf(c.ChainPair, 0), height: c07Height, round: c07Round, typ: tmproto.PrecommitType, block: 0, signer: e.outsider.PubKey(), ok: true})
 	case -1:
 		sigs = sigs[:len(sigs)-1]
 		b.truth = b.truth[:len(b.truth)-1]
@@ -305,10 +323,7 @@ func (e *c07Env) run(r *vr.Report, c c07Case) (key, what string) {
 	if err != nil {
 		panic(err)
 	}
-	chain := c07Chain
-	if c.CallerChain == 1 {
-		chain = "verif-c07-other"
-	}
+	chain := c07ChainOf(c.ChainPair, c.CallerChain)
 	callerH := c07Height + c.CallerHeight
 	callerB := e.blocks[c.CallerBlock]
 
@@ -479,7 +494,7 @@ func TestVerifC07(t *testing.T) {
 		}
 		r.Eval()
 		triv := c.ExtraSlot == 0 && c.CommitHeight == 0 && c.CommitRound == 0 && c.CommitBlock == 0 && c.CallerHeight == 0 &&
-			c.CallerBlock == 0 && c.CallerChain == 0 && len(c.TrustedKeys) == 0 && c.Den == 0
+			c.CallerBlock == 0 && c.CallerChain == 0 && len(c.TrustedKeys) == 0 && c.Den == 0 && c.ChainPair == 0
 		for _, kd := range c.Kinds {
 			if kd != c07ForBlock {
 				triv = false
@@ -591,6 +606,22 @@ func TestVerifC07(t *testing.T) {
 				}
 			}
 		})
+	}
+	// 2d. chain ids at and beyond MaxChainIDLen: the genuine and the other chain id share their first MaxChainIDLen bytes (nothing in
+	// the verification path bounds the caller's chain id), or have exactly that length and differ in the last byte
+	for pair := 1; pair <= 3; pair++ {
+		for _, pw := range [][]int64{{1}, {1, 1, 1}, {2, 1, 1}, {1, 1, 1, 1}} {
+			c07EachKinds(len(pw), []int{c07Absent, c07ForBlock, c07NilValid, c07OtherChain}, func(ks []int) {
+				for cc := 0; cc < 2; cc++ {
+					for _, fr := range [][2]uint64{{0, 0}, {1, 3}} {
+						if !ok {
+							return
+						}
+						ok = try(c07Case{Powers: pw, Kinds: ks, CallerChain: cc, ChainPair: pair, Num: fr[0], Den: fr[1]})
+					}
+				}
+			})
+		}
 	}
 	// 3. trust fractions x trusted sets (overlapping, different powers) x kinds
 	fracs := [][2]uint64{{1, 3}, {1, 2}, {2, 3}, {1, 1}, {0, 1}, {1, 0}, {3, 2}, {1<<63 - 1, 1}, {1<<63 - 1, 1<<63 - 1}}
